@@ -7,7 +7,11 @@
    leading digit, part above 2^64-1 - the generator's Sscanf("%020d") is transcribed); expected version +-;
    session none / live / dead; 0-2 secondary indexes; deletes; ranges incl. start > end and bounds around
    the internal block) x pre-states it yields one status per operation; requests the leader refuses before
-   logging (WellFormed) are steps with outcome REJECTED and no effect.
+   logging (WellFormed) are steps with outcome REJECTED and no effect.  Hostile secondary-index declarations
+   (OxiaDb.tla "Secondary-index declarations": empty name, names with '/', separator byte, empty secondary
+   key, repeated / colliding / many declarations) are refused by nobody, so they are enumerated as puts and
+   as pre-states whose records carry them (then overwritten, deleted, range-deleted); DeclNeutral /
+   DeclEntries: declarations never change statuses or records and each denotes exactly one entry key.
 2. spec -> code: each request is built as a real protobuf and (a) applied by a real kv.DB.ProcessWrite,
    (b) written through a real RF=1 leader controller (WriteBlock), which is then closed and re-created
    (NewTerm + BecomeLeader replay the WAL) and has to accept a further write.  Outcome (accepted / refused /
@@ -55,7 +59,7 @@ def run(ctx):
 
     # 1 + 2: classes x pre-states, one behaviour per transition: set-up, request, restart, probe write
     path, n, r = _db.tlc_export(ctx, "db-c13-steps.cfg", "STEP", "classes")
-    ctx.log("classes: %d requests x pre-states enumerated by TLC (Total holds on %d transitions)" % (n, r.generated))
+    ctx.log("classes: %d requests x pre-states enumerated by TLC (Total, DeclNeutral, DeclEntries hold on %d transitions)" % (n, r.generated))
     res = _db.replay(ctx, binp, path, "leader", SCOPE, "classes-leader")
     _db.report(ctx, res, "c13-leader", "real leader controller deviates from OxiaDb.tla")
     _known(ctx, res, seen)
